@@ -11,6 +11,7 @@ import Driver.Types
 import Driver.Tmpl
 import Driver.Derive
 import Driver.Stmt
+import Driver.Ddl
 /-! Line-protocol driver: one request per line on stdin, one canonical result line on stdout. -/
 open SeaQ SeaQ.Util
 
@@ -74,6 +75,7 @@ def handle (line : String) : String :=
   else if l.startsWith "pexpr " then Driver.Expr.run (l.drop 6).toString
   else if l.startsWith "veq " then Driver.VEq.run (l.drop 4).toString
   else if l.startsWith "stmt " then Driver.Stmt.run (l.drop 5).toString
+  else if l.startsWith "ddl " then Driver.Ddl.run (l.drop 4).toString
   else if l.startsWith "types " then Driver.Types.run (l.drop 6).toString
   else handleWords l
 
